@@ -53,6 +53,15 @@ def int_cases(rng, n):
         else:
             vals = [rng.choice([hi, hi - 1, hi // 2, 1, (-hi if not dtype.startswith("u") else hi)]) for _ in range(m)]
         c = {"func": func, "vals": vals, "labels": G.rand_labels(rng, m, ng), "engine": rng.choice(ENGINES), "dtype": dtype}
+        if rng.random() < 0.12 and func not in ("prod", "nanprod", "var", "nanvar"):
+            # MANY members of small value: the number of members (count) and the totals exceed the input width (int8: 127, uint8: 255)
+            dtype = rng.choice(["int8", "uint8", "int8", "uint8", "int16", "bool"])
+            m = rng.randint(260, 700)
+            vals = [rng.random() < 0.8 for _ in range(m)] if dtype == "bool" else [rng.choice([1, 1, 1, 2, 0]) for _ in range(m)]
+            c = {"func": rng.choice(["count", "count", "sum", "nansum", "mean", "max"]) if dtype != "bool" else rng.choice(["count", "sum", "any"]),
+                 "vals": vals, "labels": [rng.randrange(ng) for _ in range(m)] if rng.random() < 0.5 else sorted(rng.randrange(ng) for _ in range(m)),
+                 "engine": rng.choice(ENGINES), "dtype": dtype}
+            func = c["func"]
         if func in ("var", "nanvar"):
             c["ddof"] = 0
             # keep every group well-conditioned (spread comparable to the magnitude): the property is about
